@@ -705,6 +705,82 @@ def nested_attribute_groups(ctx):
                      kind="factory")
 
 
+TWO_PT = """<?xml version="1.0" encoding="UTF-8"?>
+<wsdl:definitions targetNamespace="urn:w" xmlns:w="urn:w" xmlns:t="urn:t" xmlns:xs="http://www.w3.org/2001/XMLSchema"
+    xmlns:wsdl="http://schemas.xmlsoap.org/wsdl/" xmlns:soap="http://schemas.xmlsoap.org/wsdl/soap/">
+  <wsdl:types><xs:schema targetNamespace="urn:t" elementFormDefault="qualified">
+    <xs:element name="f"><xs:complexType><xs:sequence><xs:element name="a" type="xs:string"/>
+      <xs:element name="n" type="xs:int"/></xs:sequence></xs:complexType></xs:element>
+    <xs:element name="fResponse"><xs:complexType><xs:sequence><xs:element name="r" type="xs:int"/></xs:sequence>
+      </xs:complexType></xs:element>
+    <xs:element name="g" type="xs:string"/>
+    <xs:element name="gResponse" type="xs:string"/>
+  </xs:schema></wsdl:types>
+  %(sections)s
+</wsdl:definitions>"""
+
+
+def two_port_types_with_one_operation_name(ctx):
+    """Two port types that each have an operation "f" - one takes a wrapper element (wrapped parameters a, n; an int
+    result), the other a bare string element - bound by two bindings and offered by two ports: the order in which the
+    messages, port types, bindings and ports are written is surface; each port's f keeps its own signature, request
+    and reply decoding."""
+    rng = ctx.rng
+    sec = {
+        "m1": '<wsdl:message name="In1"><wsdl:part name="parameters" element="t:f"/></wsdl:message>'
+              '<wsdl:message name="Out1"><wsdl:part name="parameters" element="t:fResponse"/></wsdl:message>',
+        "m2": '<wsdl:message name="In2"><wsdl:part name="body" element="t:g"/></wsdl:message>'
+              '<wsdl:message name="Out2"><wsdl:part name="body" element="t:gResponse"/></wsdl:message>',
+        "pt1": '<wsdl:portType name="PT1"><wsdl:operation name="f"><wsdl:input message="w:In1"/>'
+               '<wsdl:output message="w:Out1"/></wsdl:operation></wsdl:portType>',
+        "pt2": '<wsdl:portType name="PT2"><wsdl:operation name="f"><wsdl:input message="w:In2"/>'
+               '<wsdl:output message="w:Out2"/></wsdl:operation></wsdl:portType>',
+    }
+    for k in ("1", "2"):
+        sec["b" + k] = ('<wsdl:binding name="B%s" type="w:PT%s"><soap:binding style="document" '
+                        'transport="http://schemas.xmlsoap.org/soap/http"/><wsdl:operation name="f">'
+                        '<soap:operation soapAction="urn:f%s"/><wsdl:input><soap:body use="literal"/></wsdl:input>'
+                        '<wsdl:output><soap:body use="literal"/></wsdl:output></wsdl:operation></wsdl:binding>' % (k, k, k))
+    port = {k: '<wsdl:port name="P%s" binding="w:B%s"><soap:address location="http://localhost/p%s"/></wsdl:port>' % (k, k, k)
+            for k in ("1", "2")}
+    replies = {"P1": '<fResponse xmlns="urn:t"><r>41</r></fResponse>', "P2": '<gResponse xmlns="urn:t">41</gResponse>'}
+    want = {"P1": [["a", "n"], ["urn:t", "f", None, [["urn:t", "a", "v", []], ["urn:t", "n", "7", []]]], "urn:f1", "int:41"],
+            "P2": [["g"], ["urn:t", "g", "v", []], "urn:f2", "Text:41"]}
+
+    def canon_el(n):
+        return [n.namespace()[1], n.name, None if n.getText() is None else str(n.getText()), [canon_el(c) for c in n.children]]
+    orders = list(itertools.permutations(["m1", "m2", "pt1", "pt2", "b1", "b2"]))
+    rng.shuffle(orders)
+    picked = [("m1", "m2", "pt1", "pt2", "b1", "b2"), ("m2", "m1", "pt2", "pt1", "b2", "b1"),
+              ("b2", "b1", "pt1", "pt2", "m1", "m2"), ("b1", "b2", "pt2", "pt1", "m2", "m1")] + orders[:ctx.pick(8, 80)]
+    for order in picked:
+        for ports in (("1", "2"), ("2", "1")):
+            for call_first in ("P1", "P2"):
+                meta = {"stream": "two-port-types", "order": list(order), "ports": list(ports), "called_first": call_first}
+                ctx.case(common.canon(meta), True)
+                w = (TWO_PT % {"sections": "".join(sec[k] for k in order) + '<wsdl:service name="S">%s</wsdl:service>'
+                               % "".join(port[k] for k in ports)}).encode()
+                got = {}
+                try:
+                    c = wsdlkit.client(w, nosend=True)
+                    for pn in ([call_first] + [x for x in ("P1", "P2") if x != call_first]):
+                        m = getattr(c.service[pn], "f")
+                        sig = [str(a_[0]) for a_ in m.method.binding.input.param_defs(m.method)]
+                        rc = m("v", 7) if pn == "P1" else m("v")
+                        from suds.sax.parser import Parser
+                        body = Parser().parse(string=rc.envelope).root().getChild("Body")
+                        r = rc.process_reply(('<e:Envelope xmlns:e="%s"><e:Body>%s</e:Body></e:Envelope>'
+                                              % (xmlread.ENV11, replies[pn])).encode())
+                        got[pn] = [sig, canon_el(body.children[0]) if body.children else None,
+                                   m.method.soap.action.strip('"'), "%s:%s" % (type(r).__name__, r)]
+                except Exception as e:
+                    got = "%s: %s" % (type(e).__name__, str(e)[:200])
+                if got != want:
+                    ctx.fail("two renderings of one interface build different clients", meta, repr(got), repr(want),
+                             kind="request")
+                    return
+
+
 def prefix_numbering(ctx):
     """The generated prefixes (ns0, ns1, ...: what str(client) shows and factory.create('nsN:Type') understands) do not
     depend on the order in which a WSDL declares its schema blocks and types - with namespace sorting on or off."""
@@ -757,6 +833,7 @@ def run(ctx):
     enumeration_aliases_and_autoblend(ctx)
     several_blocks_of_one_namespace(ctx)
     nested_attribute_groups(ctx)
+    two_port_types_with_one_operation_name(ctx)
     ctx.sample({"graph": [[1, [2, 3]], [2, [1]], [3, []]], "note": "D14 witness graph"})
 
 
